@@ -146,7 +146,9 @@ class Model:
                     self.regroup()          # Acl.ungroup_ports goes through the items setter, which regroups
             self.platform = a[1]
         elif a[0] in ("port_nr", "protocol_nr"):
-            pass
+            # the switches rebuild the ACL from its exported data: with group_by set the items are regrouped
+            if self.group_by:
+                self.regroup()
         elif a[0] in ("copy", "data", "reparse"):
             if self.group_by:
                 self.regroup()
